@@ -1,22 +1,22 @@
 #!/bin/bash
-# tools/run_seeded.sh <seeded-dir> [check ids...]  -- apply seeded/<id>/patch.diff to /repo, run checks, undo.
-# Replays and evidence of these runs go to a scratch directory: they say nothing about the unchanged tree.
+# tools/run_seeded.sh <seeded-dir> [check ids...]  -- apply seeded/<id>/patch.diff to a scratch export of /repo's HEAD
+# and run the checks against it (VERIF_REPO).  /repo itself is never touched, so several of these, the hand mutants
+# and ordinary checks can run side by side.  (Equivalent by hand: git -C /repo apply <patch>; ./check <id>; git -C /repo checkout -- .)
+# Replays and evidence of these runs go to the scratch directory: they say nothing about the unchanged tree.
 set -u
 dir=$(realpath "$1"); shift
 checks=${*:-$(python3 -c "import json;print(json.load(open('$dir/meta.json'))['property'])")}
-cd /repo || exit 2
-if ! git diff --quiet; then echo "/repo has uncommitted changes; refusing"; exit 2; fi
-git apply "$dir/patch.diff" || { echo "patch does not apply"; exit 2; }
 scratch=$(mktemp -d /tmp/fa-seeded-XXXX)
+mkdir "$scratch/repo"
+git -C /repo archive HEAD functional_algorithms pyproject.toml | tar -x -C "$scratch/repo" || exit 2
+(cd "$scratch/repo" && git apply "$dir/patch.diff") || { echo "patch does not apply"; rm -rf "$scratch"; exit 2; }
 rc_all=0
 for c in $checks; do
-  VERIF_EVIDENCE_DIR=$scratch/evidence VERIF_REPLAY_DIR=$scratch/replays /verif/check "$c" --tier "${TIER:-quick}" > "$scratch/$c.log" 2>&1
+  VERIF_REPO=$scratch/repo VERIF_EVIDENCE_DIR=$scratch/evidence VERIF_REPLAY_DIR=$scratch/replays /verif/check "$c" --tier "${TIER:-quick}" > "$scratch/$c.log" 2>&1
   rc=$?
   echo "== $c exit=$rc"
   grep -E "^violation class|^  detail|^VIOLATION|^HARNESS|^episodes=" "$scratch/$c.log" | cut -c1-700 | head -12
   [ $rc -ne 0 ] && rc_all=$rc
 done
-git -C /repo checkout -- .
-git -C /repo status --short | grep -v '^??' | head
 rm -rf "$scratch"
 exit $rc_all
